@@ -158,6 +158,9 @@ let handle (toks: string list) : string =
       id ^ " " ^ go (hexarg hex) 0
   | "dosunbin" :: id :: hex :: [] ->
       id ^ " " ^ (match dos_unpack_bin (hexarg hex) with ROk (_, d) -> "ok:" ^ hex_of_bytes d | RErr _ -> "err" | RPanic _ -> "panic" | RFuel -> "fuel")
+  | "mkdecide" :: id :: os :: kind :: ty :: wrap :: [] ->
+      let cs (s:string) = List.init (String.length s) (fun i -> n_of_int (Char.code s.[i])) in
+      id ^ " " ^ (if decide (cs os) (cs kind) (cs ty) (if wrap = "-" then None else Some (cs wrap)) then "accept" else "refuse")
   | "crc32" :: id :: hex :: [] -> id ^ " " ^ string_of_int (int_of_n (crc32 N0 (hexarg hex)))
   | "crc16" :: id :: seed :: hex :: [] -> id ^ " " ^ string_of_int (int_of_n (crc16 (n_of_int (int_of_string seed)) (hexarg hex)))
   | "imdtrk" :: id :: _kind :: secsize :: nsec :: rest ->
